@@ -201,3 +201,28 @@ def run(R):
         if not okr:
             R.viol("C09.versions.sibling", "remove-stored-keys", "remove_stored_keys no longer compares the record type with the stored one", addk, addk.lines[0])
         R.inst("C09.versions.sibling", "K6 flows-to", "remove_stored_keys drops a queued entry only if the stored type equals the advertised one", len(rsk), okr)
+        # a stored / early-completed version clears only the queued entries of *that* version: other versions advertised for the
+        # key stay queued (they are what lets divergent holders converge through this node)
+        from rules import closures_passed
+        RF = "ant_networking::replication_fetcher::ReplicationFetcher::"
+        for fn in ("notify_about_new_put", "notify_fetch_early_completed"):
+            fb = R.body("C09.versions.queue", RF + fn)
+            if fb is None:
+                continue
+            prep(fb)
+            q = Taint(fb).closure({d for d, r, p in field_reads(fb, "to_be_fetched")})
+            rets = [blk for blk in fb.blocks if blk["term"]["k"] == "call" and not blk["cleanup"] and (blk["term"]["ncallee"] or "").endswith("::retain") and op_local(blk["term"]["args"][0]) in q]
+            okq = bool(rets)
+            for blk in rets:
+                typed = False
+                for cl in closures_passed(F, fb, blk["term"]):
+                    prep(cl)
+                    for c in compare_sites(cl):
+                        ta_, tb_ = cl.locals.get(str(op_local(c["a"])), ""), cl.locals.get(str(op_local(c["b"])), "")
+                        if c["op"] in ("Eq", "Ne") and "RecordType" in ta_ and "RecordType" in tb_:
+                            typed = True
+                if not typed:
+                    okq = False
+            if not okq:
+                R.viol("C09.versions.queue", "queue-ignores-type:%s" % fn, "%s drops queued fetches by key alone: a differing version of the record advertised by another holder is never fetched" % fn, fb, fb.lines[0])
+            R.inst("C09.versions.queue", "K6 flows-to", "%s: queued entries are dropped only for the same (key, record type)" % fn, len(rets), okq)
